@@ -17,7 +17,7 @@ pub fn plan() -> Plan {
         meta: Meta {
             property: "C10",
             level: "exploration",
-            rule: "three monitors. (A) unit level through the public filter API: random bloom configs (bit counts not multiples of 64, 1..6 hashers, zero elements/bits/hashers), random key sets of random lengths: every added key must not be NotContains in memory, after to_raw/from_raw (answers equal for every probed key, added or not), and when the buffer is off-loaded and probed byte-wise through a BloomDataProvider over the serialized bytes (answers must EQUAL the in-memory answers for every probed key); checked_add_assign yields a superset or refuses; RangeFilter/CombinedFilter likewise. (B) HierarchicalFilters driven with a harness-defined child through random push/pop/remove/re-push/offload_buffer(level) sequences for group sizes 2..9: every live child must be yielded by iter_possible_childs(key) (both directions) for every key it holds and check_filter(key) != NotContains. (C) storage level: model histories with close/restore/delete-in-closed/offload at each level/restart over group sizes 2..9 and random keys; after each step for every stored key: check_filters != Some(false), BloomProvider::check_filter != NotContains, get_filter() contains it, read != NotFound. Non-trivial = a case with >=2 filters merged or an off-loaded probe; distinct = hash of the case.",
+            rule: "three monitors. (A) unit level through the public filter API: random bloom configs (bit counts not multiples of 64, 1..6 hashers, zero elements/bits/hashers), random key sets of random lengths: every added key must not be NotContains in memory, after to_raw/from_raw (answers equal for every probed key, added or not), and when the buffer is off-loaded and probed byte-wise through a BloomDataProvider over the serialized bytes (answers must EQUAL the in-memory answers for every probed key); checked_add_assign yields a superset or refuses, also against a filter that differs in exactly one configuration dimension (same bit count / other hasher count, other bit count); RangeFilter/CombinedFilter likewise. (B) HierarchicalFilters driven with a harness-defined child through random push/pop/remove/re-push/offload_buffer(level) sequences for group sizes 2..9: every live child must be yielded by iter_possible_childs(key) (both directions) for every key it holds and check_filter(key) != NotContains. (B) also mixes children written under another bloom configuration. (C) storage level: model histories with close/restore/delete-in-closed/offload at each level/restart over group sizes 2..9 and random keys, a third of them re-opening the directory under another bloom configuration (2 <-> 3 hashers at equal bit count, bloom off) at every restart; after each step for every stored key: check_filters != Some(false), BloomProvider::check_filter != NotContains, get_filter() contains it, read != NotFound. Non-trivial = a case with >=2 filters merged or an off-loaded probe; distinct = hash of the case.",
             assumptions: vec!["verdict holds for the cases generated for this seed", "Miri run of monitor (A) is part of the thorough tier (tools/miri_c10.sh)"],
         },
         shards: 16,
